@@ -71,6 +71,9 @@ def work(k, ids, head):
         else:
             meta = json.load(open(d + "/meta.json"))
             meta["reconfirmed_at"] = {"repo_head": head, "suite_passed": passed, "suite_failed": failed, "demo_clean_exit": c_rc, "demo_mutated_exit": m_rc, "script": "tools/reconfirm.py"}
+            if "confirmed_by_me" not in meta:
+                meta["confirmed_by_me"] = {"what": "applied in a scratch worktree of /repo HEAD %s; cargo test --workspace --offline stays green; the demo passes on the clean tree and fails with the patch" % head,
+                                           "suite_passed": passed, "suite_failed": failed, "demo_clean_exit": c_rc, "demo_mutated_exit": m_rc, "script": "tools/reconfirm.py"}
             json.dump(meta, open(d + "/meta.json", "w"), indent=1)
     sh("git -C /repo worktree remove --force %s" % wt)
     shutil.rmtree(tgt, ignore_errors=True)
@@ -92,6 +95,15 @@ def main():
     with ThreadPoolExecutor(j) as ex:
         for r in ex.map(lambda kc: work(kc[0], kc[1], head), enumerate(chunks)):
             rows += r
+    if args:
+        done = {r[0] for r in rows}
+        try:
+            for l in open(os.path.join(V, "seeded", "RECONFIRM.tsv")):
+                p = tuple(l.rstrip("\n").split("\t"))
+                if not l.startswith("#") and p[0] not in done and len(p) > 1:
+                    rows.append(p)
+        except OSError:
+            pass
     rows.sort()
     with open(os.path.join(V, "seeded", "RECONFIRM.tsv"), "w") as fh:
         fh.write("# re-confirmation of the seeded mutants against /repo HEAD %s (tools/reconfirm.py)\n" % head)
